@@ -5,6 +5,7 @@ import (
 	"math"
 	"math/big"
 	"math/rand"
+	"strconv"
 	"strings"
 
 	"github.com/ctessum/geom"
@@ -210,6 +211,9 @@ func lexWKT(b []byte) []interface{} {
 			if !ok {
 				return append(out, tok("bad", string(b[i:j]), 0))
 			}
+			if !shortestDecimal(string(b[i:j]), f) {
+				c06LongNumber = true
+			}
 			out = append(out, tok("num", "", c06Enc(f).(int)))
 			i = j
 		default:
@@ -217,6 +221,36 @@ func lexWKT(b []byte) []interface{} {
 		}
 	}
 	return out
+}
+
+// set by lexWKT when a number token carries more significant digits than its value needs
+var c06LongNumber bool
+
+// shortestDecimal: does the token use as few significant digits as any decimal that reads back as f?  With n significant
+// digits in the token, the value correctly rounded to n-1 digits must read back as something else.
+func shortestDecimal(tokText string, f float64) bool {
+	t := strings.TrimLeft(tokText, "+-")
+	if k := strings.IndexAny(t, "eE"); k >= 0 {
+		t = t[:k]
+	}
+	digits := strings.Replace(t, ".", "", 1)
+	if !strings.Contains(t, ".") {
+		digits = strings.TrimRight(digits, "0") // 1200 has two significant digits
+	}
+	digits = strings.TrimLeft(digits, "0")
+	if strings.Contains(t, ".") {
+		digits = strings.TrimRight(digits, "0")
+	}
+	n := len(digits)
+	if n <= 1 {
+		return true
+	}
+	if n > 17 {
+		return false
+	}
+	shorter := strconv.FormatFloat(f, 'e', n-2, 64)
+	g, err := strconv.ParseFloat(shorter, 64)
+	return err != nil || math.Float64bits(g) != math.Float64bits(f)
 }
 
 // texts returned by the previous case's Encode calls (the very slices) and private copies of them: an encoding that a
@@ -233,7 +267,7 @@ func runC06(c map[string]interface{}) []Event {
 		c06Extra = nil
 	}
 	g := decGeom(c["g"], c06Dec)
-	e := Event{"ev": "text", "gjtokens": []interface{}{}, "wkttokens": []interface{}{}, "gjdec": noGeom, "gjkeep": true, "wktkeep": true}
+	e := Event{"ev": "text", "gjtokens": []interface{}{}, "wkttokens": []interface{}{}, "gjdec": noGeom, "gjkeep": true, "wktkeep": true, "wktshort": true}
 	e["gjout"] = safely(func() {
 		b, err := geojson.Encode(g)
 		if err != nil {
@@ -259,7 +293,9 @@ func runC06(c map[string]interface{}) []Event {
 		}
 		e["wktkeep"] = bytes.Equal(c06PrevWKT, c06PrevWKTCopy)
 		c06PrevWKT, c06PrevWKTCopy = b, append([]byte(nil), b...)
+		c06LongNumber = false
 		e["wkttokens"] = lexWKT(b)
+		e["wktshort"] = !c06LongNumber
 	})
 	if _, bad := e["wktout2"]; bad {
 		e["wktout"] = "err"
